@@ -292,7 +292,9 @@ impl<T: RealNumber + Scalar + AddAssign + SubAssign + MulAssign + DivAssign + Su
     }
 
     fn approximate_eq(&self, other: &Self, error: T) -> bool {
-        assert!(self.shape() == other.shape());
+        if self.shape() != other.shape() {
+            return false;
+        }
         self.iter()
             .zip(other.iter())
             .all(|(a, b)| (*a - *b).abs() <= error)
